@@ -8,7 +8,6 @@ import (
 	"time"
 
 	"github.com/internetarchive/Zeno/internal/pkg/config"
-	"github.com/internetarchive/Zeno/internal/pkg/controler"
 	"github.com/internetarchive/Zeno/internal/verif/vc"
 )
 
@@ -148,11 +147,7 @@ func c03Child(scPath string) int {
 			}
 		}
 	}()
-	controler.Start()
-	if sc.Mode == "sigterm" {
-		go controler.WatchSignals() // as cmd/get_url.go does after Start()
-		time.Sleep(5 * time.Millisecond)
-	}
+	pr.start(sc.Mode == "sigterm")
 	doStop := func() {
 		if sc.Mode == "sigterm" {
 			pr.fire(trigger{Point: "driver", Occurrence: 0, Action: "sigterm"})
